@@ -66,6 +66,10 @@ def l2b(l):
     return bytes(l)
 
 
+def small_append_wanted(sc, si):
+    return sc.hot == si
+
+
 class Scenario:
     def __init__(self, rng, workdir, profile, nevents):
         self.rng = rng
@@ -318,6 +322,12 @@ class Scenario:
         r = self.rng
         si = r.choice(self.sisI + self.sisM if self.profile == "lease" else (self.sisI if self.profile == "imm" else self.sisM))
         rs, cs = r.choice(list(RS)), r.choice(list(CS))
+        if self.avail() < 92 and r.random() < 0.8:
+            # the disk is full: prefer a secret every share of the bucket already knows (a pure renewal needs no space)
+            held = [set(l["rs"] for l in sh_["leases"]) for sh_ in self.obs(si).values() if sh_.get("st") == "final" or sh_.get("present")]
+            common = sorted(set.intersection(*held)) if held else []
+            if common:
+                rs = r.choice(common)
         if self.would_need_lease_space(si, rs, 92):
             return
         self.fss.remote_add_lease(SI[si], RS[rs], CS[cs])
@@ -337,22 +347,51 @@ class Scenario:
     def rand_bytes(self, n):
         return [self.rng.choice([0, 1, 2, 3]) for _ in range(n)]
 
+    def preamble_many_leases(self):
+        """lease profile: a mutable slot that carries more leases than the four header slots hold (the rest live in the
+        extra-lease area behind the data), so that later small writes move that area"""
+        r = self.rng
+        si = "m0"
+        self.hot = si
+        self.forced = {"si": si, "we": r.choice(list(WE)), "shares": r.sample(SHNUMS, r.choice([1, 1, 2])), "create": True}
+        self.op_rtw()
+        for rs in r.sample(list(RS), min(len(RS), r.randint(4, 7))):
+            cs = r.choice(list(CS))
+            self.fss.remote_add_lease(SI[si], RS[rs], CS[cs])
+            self.log("AddLease", si, rs=rs, cs=cs)
+
+    hot = None
+    forced = None
+
     def op_rtw(self, via_server=False):
         r = self.rng
         si = r.choice(self.sisM)
+        if self.hot and r.random() < 0.6:
+            si = self.hot
+        forced, self.forced = self.forced, None
+        if forced:
+            si = forced["si"]
         cur = self.obs_mut(si)
         existing_we = [s["we"] for s in cur.values() if s["present"]]
-        if existing_we and r.random() < 0.85:
+        if existing_we and (r.random() < 0.85 or small_append_wanted(self, si)):
             we = existing_we[0]
         else:
             we = r.choice(list(WE))
+        if forced:
+            we = forced["we"]
         rs, cs = r.choice(list(RS)), r.choice(list(CS))
         if self.would_need_lease_space(si, rs, 92):
             return
         tw = {}
-        for sh in r.sample(SHNUMS, r.choice([0, 1, 1, 1, 2, 2, 3])):
+        small_append = bool(self.hot == si and not forced and r.random() < 0.6)
+        for sh in (forced["shares"] if forced else r.sample(SHNUMS, r.choice([0, 1, 1, 1, 2, 2, 3]))):
             data = cur[sh]["data"]
             test = []
+            if forced or small_append:
+                # creation / a small append at the end of the data (the container grows by a few bytes)
+                writes = [{"off": len(data), "data": self.rand_bytes(r.choice([1, 2, 3, 5]))}]
+                tw[sh] = {"test": [], "writes": writes, "newlen": -1}
+                continue
             for _ in range(r.choice([0, 0, 1, 1, 2])):
                 off = r.randint(0, max(1, len(data) + 1))
                 ln = r.randint(0, 4)
@@ -425,6 +464,12 @@ class Scenario:
                      (self.op_addlease, 20), (self.op_renew, 20), (self.op_rtw, 15), (lambda: self.op_rtw(True), 8),
                      (self.op_getbuckets, 2), (self.op_setfree, 7)]
         ops = [o for o, w in table for _ in range(w)]
+        if p == "lease" and self.rng.random() < 0.35:
+            try:
+                self.preamble_many_leases()
+            except Exception as e:
+                import traceback
+                self.events.append({"ev": "Crash", "op": "preamble", "family": "C23_C24_C25", "exc": type(e).__name__, "tb": traceback.format_exc()[-600:]})
         guard = 0
         fam = {"op_allocate": "C22_C28", "op_write": "C22", "op_close": "C22_C28", "op_abort": "C22_C28", "op_advance": "C22_C28",
                "op_disconnect": "C22_C28", "op_getbuckets": "C22", "op_read": "C22", "op_addlease": "C25", "op_renew": "C25",
